@@ -528,6 +528,16 @@ def handle (line : String) : String × String :=
   | ["serdeh", hex] => handleSerde "serdeh" hex
   | ["serdes", hex] => handleSerde "serdes" hex
   | ["serdert", _] => ("same", "same")
+  | ["chunks", t, n] =>
+    match t.toNat?, n.toNat? with
+    | some threads, some len =>
+      let cs := Wellen.VcdBody.determineChunks len threads Wellen.Gen.minChunkSize
+      let contiguous := (cs.foldl (fun (acc : Bool × Nat) c => (acc.1 && c.1 == acc.2, c.1 + c.2)) (!cs.isEmpty, 0))
+      let covers := contiguous.1 && contiguous.2 ≥ len && cs.length ≤ max 1 threads
+      let list := ",".intercalate (cs.map fun c => s!"{c.1}:{c.2}")
+      -- model: the formula of the code; spec: whatever the chunks are, they must cover the body exactly once
+      (s!"covers={covers};{list}", "covers=true")
+    | _, _ => ("bad-request", "-")
   | ["fstfile", design, unit, _] =>
     (Wellen.FstFile.model design unit, Wellen.GhwSpec.specFst design unit)
   | "pairhex" :: design :: files =>
